@@ -4214,7 +4214,33 @@ let run_parse e l =
                                         (false, true, true, false, true,
                                         true, true, false)),
                                         EmptyString)))))))))),
-                                        (obs_conv p)) :: [])
+                                        (obs_conv p)) :: (((String ((Ascii
+                                        (false, false, false, false, true,
+                                        true, true, false)), (String ((Ascii
+                                        (true, true, false, false, false,
+                                        true, true, false)), (String ((Ascii
+                                        (true, true, true, true, false, true,
+                                        true, false)), (String ((Ascii
+                                        (false, true, true, true, false,
+                                        true, true, false)), (String ((Ascii
+                                        (false, true, true, false, true,
+                                        true, true, false)),
+                                        EmptyString)))))))))),
+                                        (obs_conv p)) :: (((String ((Ascii
+                                        (false, false, false, false, true,
+                                        true, true, false)), (String ((Ascii
+                                        (true, true, false, false, false,
+                                        true, true, false)), (String ((Ascii
+                                        (true, true, true, true, false, true,
+                                        true, false)), (String ((Ascii
+                                        (false, true, true, true, false,
+                                        true, true, false)), (String ((Ascii
+                                        (false, true, true, false, true,
+                                        true, true, false)), (String ((Ascii
+                                        (false, true, true, false, true,
+                                        true, true, false)),
+                                        EmptyString)))))))))))),
+                                        (obs_conv p)) :: [])))
                                     | _ -> [])
                                  | _ -> [])
   | ERb ->
@@ -4606,61 +4632,56 @@ let run_hist h =
   (String ((Ascii (true, false, false, true, false, true, true, false)),
   (String ((Ascii (false, true, false, true, true, true, true, false)),
   (String ((Ascii (true, false, true, false, false, true, true, false)),
-  EmptyString)))))))),
-  (obs_wres (fun x -> OI x) (m_calc m))) :: (app
-                                              (match m_calc m with
-                                               | Ok n0 ->
-                                                 ((String ((Ascii (true,
-                                                   true, true, false, true,
-                                                   true, true, false)),
-                                                   (String ((Ascii (false,
-                                                   true, false, false, true,
-                                                   true, true, false)),
-                                                   (String ((Ascii (true,
-                                                   false, false, true, false,
-                                                   true, true, false)),
-                                                   (String ((Ascii (false,
-                                                   false, true, false, true,
-                                                   true, true, false)),
-                                                   (String ((Ascii (true,
-                                                   false, true, false, false,
-                                                   true, true, false)),
-                                                   (String ((Ascii (true,
-                                                   true, false, false, true,
-                                                   true, true, false)),
-                                                   EmptyString)))))))))))),
-                                                   (OL
-                                                   ((obs_write
-                                                      (m_write_into m
-                                                        (repeat (Npos (XO (XI
-                                                          (XO (XI (XO (XI (XO
-                                                          XH)))))))) n0))) :: []))) :: []
-                                               | _ ->
-                                                 ((String ((Ascii (true,
-                                                   true, true, false, true,
-                                                   true, true, false)),
-                                                   (String ((Ascii (false,
-                                                   true, false, false, true,
-                                                   true, true, false)),
-                                                   (String ((Ascii (true,
-                                                   false, false, true, false,
-                                                   true, true, false)),
-                                                   (String ((Ascii (false,
-                                                   false, true, false, true,
-                                                   true, true, false)),
-                                                   (String ((Ascii (true,
-                                                   false, true, false, false,
-                                                   true, true, false)),
-                                                   (String ((Ascii (true,
-                                                   true, false, false, true,
-                                                   true, true, false)),
-                                                   EmptyString)))))))))))),
-                                                   (OL
-                                                   ((obs_write
-                                                      (m_write_into m [])) :: []))) :: [])
-                                              (obs_roundtrip m (Npos (XO (XI
-                                                (XO (XI (XO (XI (XO
-                                                XH))))))))))
+  EmptyString)))))))), (obs_wres (fun x -> OI x) (m_calc m))) :: (((String
+  ((Ascii (true, true, true, false, false, true, true, false)), (String
+  ((Ascii (true, false, true, false, false, true, true, false)), (String
+  ((Ascii (false, false, true, false, true, true, true, false)), (String
+  ((Ascii (true, true, true, true, true, false, true, false)), (String
+  ((Ascii (false, false, false, false, true, true, true, false)), (String
+  ((Ascii (true, false, false, false, false, true, true, false)), (String
+  ((Ascii (false, false, true, false, false, true, true, false)), (String
+  ((Ascii (false, false, true, false, false, true, true, false)), (String
+  ((Ascii (true, false, false, true, false, true, true, false)), (String
+  ((Ascii (false, true, true, true, false, true, true, false)), (String
+  ((Ascii (true, true, true, false, false, true, true, false)),
+  EmptyString)))))))))))))))))))))),
+  (obs_optN (m_padding m))) :: (app
+                                 (match m_calc m with
+                                  | Ok n0 ->
+                                    ((String ((Ascii (true, true, true,
+                                      false, true, true, true, false)),
+                                      (String ((Ascii (false, true, false,
+                                      false, true, true, true, false)),
+                                      (String ((Ascii (true, false, false,
+                                      true, false, true, true, false)),
+                                      (String ((Ascii (false, false, true,
+                                      false, true, true, true, false)),
+                                      (String ((Ascii (true, false, true,
+                                      false, false, true, true, false)),
+                                      (String ((Ascii (true, true, false,
+                                      false, true, true, true, false)),
+                                      EmptyString)))))))))))), (OL
+                                      ((obs_write
+                                         (m_write_into m
+                                           (repeat (Npos (XO (XI (XO (XI (XO
+                                             (XI (XO XH)))))))) n0))) :: []))) :: []
+                                  | _ ->
+                                    ((String ((Ascii (true, true, true,
+                                      false, true, true, true, false)),
+                                      (String ((Ascii (false, true, false,
+                                      false, true, true, true, false)),
+                                      (String ((Ascii (true, false, false,
+                                      true, false, true, true, false)),
+                                      (String ((Ascii (false, false, true,
+                                      false, true, true, true, false)),
+                                      (String ((Ascii (true, false, true,
+                                      false, false, true, true, false)),
+                                      (String ((Ascii (true, true, false,
+                                      false, true, true, true, false)),
+                                      EmptyString)))))))))))), (OL
+                                      ((obs_write (m_write_into m [])) :: []))) :: [])
+                                 (obs_roundtrip m (Npos (XO (XI (XO (XI (XO
+                                   (XI (XO XH)))))))))))
 
 (** val rfc_header : n -> n -> n -> nat -> bytes **)
 
@@ -7086,6 +7107,36 @@ let spec_build2 m =
     false, false, true, true, true, false)),
     EmptyString)))))))))))))))))))))))))))))), (OL
     (map obs_werr (violations m)))) :: []))
+
+(** val spec_chunk : chunk_cfg -> kv list **)
+
+let spec_chunk c =
+  ((String ((Ascii (true, true, false, false, true, true, true, false)),
+    (String ((Ascii (false, false, false, false, true, true, true, false)),
+    (String ((Ascii (true, false, true, false, false, true, true, false)),
+    (String ((Ascii (true, true, false, false, false, true, true, false)),
+    (String ((Ascii (false, true, true, true, false, true, false, false)),
+    (String ((Ascii (true, false, false, true, false, true, true, false)),
+    (String ((Ascii (true, false, true, true, false, true, true, false)),
+    (String ((Ascii (true, false, false, false, false, true, true, false)),
+    (String ((Ascii (true, true, true, false, false, true, true, false)),
+    (String ((Ascii (true, false, true, false, false, true, true, false)),
+    EmptyString)))))))))))))))))))), (OB (rfc_chunk c))) :: []
+
+(** val spec_item : item_cfg -> kv list **)
+
+let spec_item i =
+  ((String ((Ascii (true, true, false, false, true, true, true, false)),
+    (String ((Ascii (false, false, false, false, true, true, true, false)),
+    (String ((Ascii (true, false, true, false, false, true, true, false)),
+    (String ((Ascii (true, true, false, false, false, true, true, false)),
+    (String ((Ascii (false, true, true, true, false, true, false, false)),
+    (String ((Ascii (true, false, false, true, false, true, true, false)),
+    (String ((Ascii (true, false, true, true, false, true, true, false)),
+    (String ((Ascii (true, false, false, false, false, true, true, false)),
+    (String ((Ascii (true, true, true, false, false, true, true, false)),
+    (String ((Ascii (true, false, true, false, false, true, true, false)),
+    EmptyString)))))))))))))))))))), (OB (rfc_item i))) :: []
 
 (** val last_of : (op -> 'a1 option) -> op list -> 'a1 -> 'a1 **)
 
